@@ -680,3 +680,61 @@ package eventbus
 //@   props C10 C12
 //@   requires m != nil
 //@   ensures [C10.load.law] err == nil && result0 == ite(acq(in(subscriptionID, m.subscriptions)), acq(m.subscriptions[subscriptionID]), "")
+
+// ---------------------------------------------------------------- Replay (C11)
+// Interface contracts (assumed for foreign stores; the bundled stores are
+// verified against concrete versions of them, see MemoryStore above and the
+// sqlite / durablestream packages).
+//@ event readCall := call EventStore.Read
+//@ event readStreamCall := call EventStoreStreamer.ReadStream
+//@ event replayCb := call func(*StoredEvent) error record 1:Int
+//@ method EventStore.Read(store, ctx, from, limit)
+//@   effect opaque
+//@   ensures err == nil ==> readOK(log(payload(store)), from, limit, result0, result1)
+//@   ensures owned(result0)
+//@ method EventStoreStreamer.ReadStream(store, ctx, from)
+//@   effect opaque
+//@   ensures result != nil && seqLen(result) <= logLen(log(payload(store))) - posOf(log(payload(store)), from)
+//@        && (seqErr(result) == nil ==> seqLen(result) == logLen(log(payload(store))) - posOf(log(payload(store)), from))
+//@        && (forall k int :: {seqAt(result, k)} 0 <= k && k < seqLen(result) ==> seqAt(result, k) == logAt(log(payload(store)), posOf(log(payload(store)), from) + k))
+// The replay callback: arbitrary user code (may re-enter the bus; the log may grow).
+//@ callback func(*StoredEvent) error(fn, ev)
+//@   effect reentrant
+//@   unlocked
+// An iterator value is consumed by the iterator protocol (engine: iterateCall).
+//@ callback iter.Seq2[*StoredEvent, error](it, yield)
+//@   effect iterate
+
+//@ def P0(bus, from) posOf(old(log(payload(bus.store))), from)
+//@ def delivered(bus, from, L, n) (forall j int :: {nth(replayCb, j, 1)} 0 <= j && j < n ==> nth(replayCb, j, 1) == logAt(L, P0(bus, from) + j))
+//@ func (*EventBus).Replay
+//@   props C11
+//@   requires bus != nil && ctx != nil && handler != nil
+//@   requires bus.store != nil ==> resumable(log(payload(bus.store)), from)
+//@   ensures [C11.nostore] bus.store == nil ==> result != nil && cnt(replayCb) == 0
+//@   ensures [C11.frame] cnt(Append) == 0 && cnt(deliver) == 0 && cnt(publishCtx) == 0
+//@   ensures [C11.stream.nil] bus.store != nil && implements_EventStoreStreamer(dynType(bus.store)) && result == nil ==>
+//@        cnt(replayCb) == seqLen(lastres(readStreamCall)) && seqErr(lastres(readStreamCall)) == nil
+//@   ensures [C11.stream.prefix] bus.store != nil && implements_EventStoreStreamer(dynType(bus.store)) ==>
+//@        cnt(readStreamCall) == 1 && cnt(readCall) == 0 && cnt(replayCb) <= seqLen(lastres(readStreamCall)) &&
+//@        lastarg(readStreamCall, 2, String) == from &&
+//@        (forall j int :: {nth(replayCb, j, 1)} 0 <= j && j < cnt(replayCb) ==> nth(replayCb, j, 1) == seqAt(lastres(readStreamCall), j))
+//@   iterate invariant [C11.stream.loop] cnt(replayCb) == iterk && result == nil && jump_1 == 0 && cnt(readStreamCall) == 1 && cnt(readCall) == 0 &&
+//@        cnt(Append) == 0 && cnt(deliver) == 0 && cnt(publishCtx) == 0 &&
+//@        (forall j int :: {nth(replayCb, j, 1)} 0 <= j && j < iterk ==> nth(replayCb, j, 1) == seqAt(iterator, j))
+//@   ensures [C11.paged.nil] bus.store != nil && !implements_EventStoreStreamer(dynType(bus.store)) && result == nil ==>
+//@        P0(bus, from) + cnt(replayCb) == logLen(log(payload(bus.store)))
+//@   ensures [C11.paged.prefix] bus.store != nil && !implements_EventStoreStreamer(dynType(bus.store)) ==>
+//@        P0(bus, from) + cnt(replayCb) <= logLen(log(payload(bus.store))) && delivered(bus, from, log(payload(bus.store)), cnt(replayCb))
+//@        && cnt(readStreamCall) == 0
+//@   loop 1 invariant [C11.paged.loop] logExtends(log(payload(bus.store)), old(log(payload(bus.store)))) && batchSize >= 1 &&
+//@        (forall L2 ref :: {logExtends(L2, log(payload(bus.store)))} logExtends(L2, log(payload(bus.store))) ==> posOf(L2, offset) == P0(bus, from) + cnt(replayCb)) &&
+//@        P0(bus, from) + cnt(replayCb) <= logLen(log(payload(bus.store))) && delivered(bus, from, log(payload(bus.store)), cnt(replayCb)) && cnt(replayCb) >= 0
+//@        && cnt(readStreamCall) == 0 && cnt(Append) == 0 && cnt(deliver) == 0 && cnt(publishCtx) == 0
+//@   loop 2 invariant [C11.page.loop] -1 <= rangeindex && rangeindex < len(events) &&
+//@        logExtends(log(payload(bus.store)), loopentry(log(payload(bus.store)))) &&
+//@        cnt(replayCb) == loopentry(cnt(replayCb)) + rangeindex + 1 &&
+//@        P0(bus, from) + loopentry(cnt(replayCb)) + len(events) <= logLen(loopentry(log(payload(bus.store)))) &&
+//@        (forall k int :: {events[k]} 0 <= k && k < len(events) ==> events[k] == logAt(loopentry(log(payload(bus.store))), P0(bus, from) + loopentry(cnt(replayCb)) + k) && events[k] != nil) &&
+//@        delivered(bus, from, log(payload(bus.store)), cnt(replayCb)) && seqeq(events, loopentry(events))
+//@        && cnt(readStreamCall) == 0 && cnt(Append) == 0 && cnt(deliver) == 0 && cnt(publishCtx) == 0
